@@ -29,6 +29,7 @@ RULE = ("the real LinearConstraints / NonlinearConstraints / "
         "constraint; distinct = limit pattern (+kind of object)")
 RULE += ("  Also: families mixmag (a narrow two-sided component next to siblings with limits 1e3..1e305) and near_eq (relative gaps 1e-15..1e-4): 'lb = ub to rounding' is judged per component with a three-decade zone in which both readings are accepted; NaN limits / coefficients at problem level with res.maxcv and Problem.maxcv (called after the run) compared with the interval violation.")
 RULE += (" Equalities whose level lies in the last binade; consecutive points agreeing to 8-11 digits at problem level.")
+RULE += (' The same constraint objects reused with other limits before the call (translation follows the current limits).')
 ASSUMPTIONS = [
     "wrong-direction infinite limits (lb=+inf / ub=-inf) are ambiguous in "
     "the statement (interval reading vs documented dropping): both readings "
